@@ -3,6 +3,7 @@ E1 = MC_TypeTable; E3 = renderings of abstract declaration lists (fillers x inse
 loaded into the real library and judged by Trace_Parser."""
 from __future__ import annotations
 
+import os
 import random
 import re
 
@@ -309,6 +310,56 @@ def observe_table(texts, mode, names, consts, compiled):
             "consts": [[k, v] for k, v in sorted(cs.consts.items()) if isinstance(v, int) and k in consts]}
 
 
+def strip_comments(text):
+    """Comments removed (a block comment is a blank, a line comment ends at its line break) - only used to re-render corpus texts."""
+    text = re.sub(r"/\*.*?\*/", " ", text, flags=re.S)
+    return re.sub(r"//[^\n]*", "", text)
+
+
+def corpus_texts():
+    """Definition texts written by people: the string literals of the repository's tests that look like definitions."""
+    import ast
+    import glob
+
+    out = []
+    for f in sorted(glob.glob(os.path.join(os.environ.get("VERIF_REPO", "/repo"), "tests", "*.py"))):
+        try:
+            tree = ast.parse(open(f).read())
+        except SyntaxError:
+            continue
+        for node in ast.walk(tree):
+            if isinstance(node, ast.Constant) and isinstance(node.value, str):
+                v = node.value
+                if re.search(r"\b(struct|enum|flag|typedef|union)\b", v) and "{" in v and "\n" in v and "class " not in v and "def " not in v:
+                    out.append((os.path.basename(f), v))
+    return out
+
+
+def corpus_record(rid, fname, text, compiled=False):
+    from dissect.cstruct import cstruct
+
+    empty = cstruct()
+    cs = cstruct()
+    rec = {"id": rid, "decls": [], "consts": [], "tag": "corpus", "text": text[:1500], "texts": [text], "mode": {}, "file": fname}
+    try:
+        cs.load(text, compiled=compiled)
+    except Exception as e:  # noqa: BLE001
+        rec["obs"] = {"status": "error", "exc": f"{type(e).__name__}: {e}"[:200], "table": [], "same": [], "consts": []}
+        return rec
+    table = []
+    for n in cs.typedefs:
+        if n in empty.typedefs:
+            continue
+        try:
+            table.append([n, abstract_of(cs.resolve(n), cs)])
+        except Exception as e:  # noqa: BLE001
+            table.append([n, {"k": "error", "name": type(e).__name__}])
+    rec["obs"] = {"status": "ok", "table": table, "same": [],
+                  "consts": [[k, v] for k, v in sorted(cs.consts.items()) if k not in empty.consts and isinstance(v, int) and not isinstance(v, bool)]}
+    rec["nonint_consts"] = any(k not in empty.consts and not (isinstance(v, int) and not isinstance(v, bool)) for k, v in cs.consts.items())
+    return rec
+
+
 class ParserCheck:
     prop = "C13"
 
@@ -334,7 +385,7 @@ class ParserCheck:
 
             def record(order, texts, tag, extra=None):
                 recs.append(dict({"id": len(recs), "decls": spec_decls(decls, order), "consts": cpairs, "tag": tag,
-                                  "text": "\n".join(texts)[:1500], "mode": mode,
+                                  "text": "\n".join(texts)[:1500], "texts": list(texts), "mode": mode,
                                   "obs": observe_table(texts, mode, names, consts, compiled)}, **(extra or {})))
 
             # baseline, one load
@@ -367,6 +418,22 @@ class ParserCheck:
                     texts.append("\n".join(pieces[prev:c]))
                     prev = c
                 record(order, texts, "multi", {"where": where, "filler": "multi"})
+        # definitions written by people (the repository's tests), judged by the grammar of DefGrammar.tla alone: as found, and
+        # re-rendered with fillers at token boundaries (the meaning of a text does not depend on them)
+        ncorpus = 0
+        for fname, text in corpus_texts():
+            recs.append(corpus_record(len(recs), fname, text, compiled=rnd.random() < 0.5))
+            ncorpus += 1
+            try:
+                toks = tokenize(strip_comments(text))
+            except MachineryError:
+                continue
+            pts = insertion_points(toks)
+            for _ in range(6 if thorough else 2):
+                chosen = rnd.sample(pts, min(len(pts), rnd.randrange(1, 6))) if pts else []
+                fills = {p: rnd.choice(FILLERS) for p, w in chosen if w != "enum-value"}
+                recs.append(corpus_record(len(recs), fname, join(toks, fills), compiled=rnd.random() < 0.5))
+        rep.extra["corpus_texts"] = ncorpus
         # API histories: add_type with names (cycles, unknown targets, re-declarations) + resolve of every name
         for h in range(1500 if thorough else 150):
             recs.append(api_history(rnd, len(recs)))
@@ -379,6 +446,12 @@ class ParserCheck:
             rep.sample({"tag": r["tag"], "text": r.get("text", "")[:300], "status": r["obs"]["status"]}, limit=4)
             if not v:
                 continue
+            if v == ["SKIP:outside-grammar"]:
+                rep.count("SKIP:outside-grammar")
+                continue
+            bugs = [c for c in v if c.startswith("SPECBUG")]
+            if bugs:
+                raise MachineryError(f"the grammar of DefGrammar.tla and the renderer disagree on {r.get('text', '')[:400]!r}: {bugs}")
             if r.get("where") == "enum-value" and ("\n" in r.get("filler", "") or r.get("filler") == "multi"):
                 rep.known_hit("F12", r.get("text", "")[:160].replace("\n", "\\n"))
                 continue
